@@ -13,10 +13,11 @@ import GdVerif.Props.C07_jc2m
 open Gd Gd.Jc2m Gd.Jc2m.Spec Gd.Faults
 open Gd.Gs3.Spec (Plan Attempt Ending Stage faultyFaults wfPlan malformedError malformedAt attemptsOf handshakeRequest)
 
-/-- THE GENERAL STATEMENT: for every plan in C10's domain for the retry count (`Gs3.Spec.wfPlan`), the query returns the
+/-- THE GENERAL STATEMENT: for every plan in C10's domain for the retry count (`Gs3.Spec.wfPlan` for a reply of ONE data
+packet — `Spec.pool`: a failed attempt therefore receives nothing of it), the query returns the
 outcome the property prescribes (`faultyExpected`) and has sent exactly the plan's datagrams (`faultySends`). -/
 theorem C10_jc2m_query_faulty (cfg : Config) (st : State) (h : wf cfg st = true) (port : Option Nat) (retries : Nat)
-    (plan : Plan) (hplan : wfPlan retries plan = true) (restQ : List Delivery) (restF : List Bool) :
+    (plan : Plan) (hplan : wfPlan retries (pool cfg st) plan = true) (restQ : List Delivery) (restF : List Bool) :
     (Jc2m.query port retries
         (Net.init [.opened (faultyScript cfg st plan ++ restQ)] (faultyFaults plan ++ restF))).1
       = faultyExpected st plan
@@ -28,13 +29,16 @@ theorem C10_jc2m_query_faulty (cfg : Config) (st : State) (h : wf cfg st = true)
 /-- (a) RECOVERY: at most `retries` timeout-class failures (at either stage) before the valid exchange — the query
 returns exactly `Spec.expected st` (`C07_jc2m_query`: the result with no faults) after `fails.length + 1` attempts. -/
 theorem C10_jc2m_query_recovers (cfg : Config) (st : State) (h : wf cfg st = true) (port : Option Nat) (retries : Nat)
-    (fails : List Attempt) (hk : fails.length ≤ retries) (restQ : List Delivery) (restF : List Bool) :
+    (fails : List Attempt) (hk : fails.length ≤ retries) (hw : ∀ a ∈ fails, a.got = []) (restQ : List Delivery)
+    (restF : List Bool) :
     let plan : Plan := ⟨fails, .valid⟩
     let out := Jc2m.query port retries
         (Net.init [.opened (faultyScript cfg st plan ++ restQ)] (faultyFaults plan ++ restF))
     out.1 = .ok (expected st) ∧ attemptsOf (Gd.sentOf out.2.log) = fails.length + 1 := by
   intro plan out
-  obtain ⟨h1, h2⟩ := C10_jc2m_query_faulty cfg st h port retries plan (by simp [plan, wfPlan, hk]) restQ restF
+  obtain ⟨h1, h2⟩ := C10_jc2m_query_faulty cfg st h port retries plan
+    (by simp only [plan, wfPlan, Bool.and_eq_true, List.all_eq_true, decide_eq_true_eq]
+        exact ⟨fun a ha => wf_of_got_nil _ a (hw a ha), hk⟩) restQ restF
   refine ⟨h1, ?_⟩
   show attemptsOf (Gd.sentOf out.2.log) = _
   rw [show Gd.sentOf out.2.log = _ from h2, faultySends,
@@ -44,7 +48,8 @@ theorem C10_jc2m_query_recovers (cfg : Config) (st : State) (h : wf cfg st = tru
 /-- (b) EXHAUSTION: all `retries + 1` attempts end in a timeout-class failure — the query fails with the last attempt's
 error (`PacketReceive`, or `PacketSend` for a failed send) after exactly `retries + 1` attempts. -/
 theorem C10_jc2m_query_exhausted (cfg : Config) (st : State) (h : wf cfg st = true) (port : Option Nat) (retries : Nat)
-    (fails : List Attempt) (hk : fails.length = retries + 1) (restQ : List Delivery) (restF : List Bool) :
+    (fails : List Attempt) (hk : fails.length = retries + 1) (hw : ∀ a ∈ fails, a.got = []) (restQ : List Delivery)
+    (restF : List Bool) :
     let plan : Plan := ⟨fails, .gaveUp⟩
     let out := Jc2m.query port retries
         (Net.init [.opened (faultyScript cfg st plan ++ restQ)] (faultyFaults plan ++ restF))
@@ -52,7 +57,9 @@ theorem C10_jc2m_query_exhausted (cfg : Config) (st : State) (h : wf cfg st = tr
     ∧ (out.1 = .err .packetReceive ∨ out.1 = .err .packetSend)
     ∧ attemptsOf (Gd.sentOf out.2.log) = retries + 1 := by
   intro plan out
-  obtain ⟨h1, h2⟩ := C10_jc2m_query_faulty cfg st h port retries plan (by simp [plan, wfPlan, hk]) restQ restF
+  obtain ⟨h1, h2⟩ := C10_jc2m_query_faulty cfg st h port retries plan
+    (by simp only [plan, wfPlan, Bool.and_eq_true, List.all_eq_true, beq_iff_eq]
+        exact ⟨fun a ha => wf_of_got_nil _ a (hw a ha), hk⟩) restQ restF
   have h1' : out.1 = .err (lastError Attempt.error fails) := h1
   refine ⟨h1', ?_, ?_⟩
   · rw [h1']
@@ -66,15 +73,17 @@ theorem C10_jc2m_query_exhausted (cfg : Config) (st : State) (h : wf cfg st = tr
 or does not start with the kind byte of its stage (`09` at the handshake, `00` at the data stage) ends the query at
 once with `PacketUnderflow` / `PacketBad`, whatever `retries` is, after `fails.length + 1` attempts. -/
 theorem C10_jc2m_query_malformed_not_retried (cfg : Config) (st : State) (h : wf cfg st = true) (port : Option Nat)
-    (retries : Nat) (fails : List Attempt) (hk : fails.length ≤ retries) (stage : Stage) (m : Bytes)
-    (hm : malformedAt stage m = true) (restQ : List Delivery) (restF : List Bool) :
-    let plan : Plan := ⟨fails, .malformed stage m⟩
+    (retries : Nat) (fails : List Attempt) (hk : fails.length ≤ retries) (hw : ∀ a ∈ fails, a.got = [])
+    (stage : Stage) (m : Bytes) (hm : malformedAt stage m = true) (restQ : List Delivery) (restF : List Bool) :
+    let plan : Plan := ⟨fails, .malformed stage [] m⟩
     let out := Jc2m.query port retries
         (Net.init [.opened (faultyScript cfg st plan ++ restQ)] (faultyFaults plan ++ restF))
     out.1 = .err (malformedError m) ∧ (malformedError m).isTimeout = false
     ∧ attemptsOf (Gd.sentOf out.2.log) = fails.length + 1 := by
   intro plan out
-  obtain ⟨h1, h2⟩ := C10_jc2m_query_faulty cfg st h port retries plan (by simp [plan, wfPlan, hk, hm]) restQ restF
+  obtain ⟨h1, h2⟩ := C10_jc2m_query_faulty cfg st h port retries plan
+    (by simp only [plan, wfPlan, Bool.and_eq_true, List.all_eq_true, decide_eq_true_eq]
+        exact ⟨fun a ha => wf_of_got_nil _ a (hw a ha), ⟨hk, hm⟩, by simp [Gs3.Spec.gotAt, partOf]⟩) restQ restF
   refine ⟨h1, Gs3.malformedError_not_timeout m, ?_⟩
   show attemptsOf (Gd.sentOf out.2.log) = _
   rw [show Gd.sentOf out.2.log = _ from h2, faultySends,
@@ -87,15 +96,16 @@ theorem C10_jc2m_query_malformed_not_retried (cfg : Config) (st : State) (h : wf
 -- attempts; retries = 1 and two lost packets: PacketReceive; `FF FF` as handshake reply with retries = 6: PacketBad
 example (port : Option Nat) (restQ : List Delivery) :
     (Jc2m.query port 2 (Net.init [.opened (faultyScript C07_jc2m_exampleConfig C07_jc2m_exampleState
-          ⟨[⟨.data, false⟩, ⟨.handshake, true⟩], .valid⟩ ++ restQ)]
-        (faultyFaults ⟨[⟨.data, false⟩, ⟨.handshake, true⟩], .valid⟩ ++ []))).1 = .ok (expected C07_jc2m_exampleState)
+          ⟨[⟨.data, false, []⟩, ⟨.handshake, true, []⟩], .valid⟩ ++ restQ)]
+        (faultyFaults ⟨[⟨.data, false, []⟩, ⟨.handshake, true, []⟩], .valid⟩ ++ []))).1 = .ok (expected C07_jc2m_exampleState)
     ∧ (Jc2m.query port 1 (Net.init [.opened (faultyScript C07_jc2m_exampleConfig C07_jc2m_exampleState
-          ⟨[⟨.data, false⟩, ⟨.data, false⟩], .gaveUp⟩ ++ restQ)]
-        (faultyFaults ⟨[⟨.data, false⟩, ⟨.data, false⟩], .gaveUp⟩ ++ []))).1 = .err .packetReceive
+          ⟨[⟨.data, false, []⟩, ⟨.data, false, []⟩], .gaveUp⟩ ++ restQ)]
+        (faultyFaults ⟨[⟨.data, false, []⟩, ⟨.data, false, []⟩], .gaveUp⟩ ++ []))).1 = .err .packetReceive
     ∧ (Jc2m.query port 6 (Net.init [.opened (faultyScript C07_jc2m_exampleConfig C07_jc2m_exampleState
-          ⟨[], .malformed .handshake [0xFF, 0xFF]⟩ ++ restQ)]
-        (faultyFaults ⟨[], .malformed .handshake [0xFF, 0xFF]⟩ ++ []))).1 = .err .packetBad :=
-  ⟨(C10_jc2m_query_recovers _ _ C07_jc2m_example_wf port 2 [⟨.data, false⟩, ⟨.handshake, true⟩] (by decide) restQ []).1,
-   (C10_jc2m_query_exhausted _ _ C07_jc2m_example_wf port 1 [⟨.data, false⟩, ⟨.data, false⟩] rfl restQ []).1,
-   (C10_jc2m_query_malformed_not_retried _ _ C07_jc2m_example_wf port 6 [] (by decide) .handshake [0xFF, 0xFF]
+          ⟨[], .malformed .handshake [] [0xFF, 0xFF]⟩ ++ restQ)]
+        (faultyFaults ⟨[], .malformed .handshake [] [0xFF, 0xFF]⟩ ++ []))).1 = .err .packetBad :=
+  ⟨(C10_jc2m_query_recovers _ _ C07_jc2m_example_wf port 2 [⟨.data, false, []⟩, ⟨.handshake, true, []⟩] (by decide)
+      (by decide) restQ []).1,
+   (C10_jc2m_query_exhausted _ _ C07_jc2m_example_wf port 1 [⟨.data, false, []⟩, ⟨.data, false, []⟩] rfl (by decide) restQ []).1,
+   (C10_jc2m_query_malformed_not_retried _ _ C07_jc2m_example_wf port 6 [] (by decide) (by decide) .handshake [0xFF, 0xFF]
       (by decide) restQ []).1⟩
